@@ -26,7 +26,7 @@ var okResp = func() []byte { b, _ := hio.Marshal("ok"); return append(append([]b
 func TestCheck(t *testing.T) {
 	r := h.Start(t, "C17")
 	defer r.Finish()
-	r.Meta("rule", "under virtual time. Concurrent limiter: max in {1,2,5} x limiter timeout {none, 1ms, 20ms, 1s} x seeded arrival scripts of 1..64 requests (arrival instants on a 1 ms grid so that timeouts, arrivals and releases coincide), service times 0..30 ms, outcomes return/error/panic; monitors: in-flight counter inside the next handler (maximum must be <= max), exact return instant of timed-out waiters, ConcurrentRequests()==0 at quiescence, and a fresh batch of max requests released at one instant must all be inside simultaneously afterwards (not wedged, no permit lost or leaked). Rate limiter: rate in {1,10,1000}/s x maxPermits {inf,0,1,10} x timeout {0, 50ms, exact boundaries +-1ns} x token sizes (invoke path 1 token, IO path len(request)) x sequential arrival scripts: every window [i,j] of admissions is checked against burst + rate*elapsed + slack, every rejection against a reference bucket charged with admitted requests only, every wait against the timeout; concurrent: same-instant parallel bursts against a full bucket. distinct_nontrivial = distinct (limiter configuration, script) pairs with at least one contended or delayed request Added: callers that cancel their own context (deadline and explicit cancellation) while queued at the concurrent limiter; maxPermits 0.")
+	r.Meta("rule", "under virtual time. Concurrent limiter: max in {1,2,5} x limiter timeout {none, 1ms, 20ms, 1s} x seeded arrival scripts of 1..64 requests (arrival instants on a 1 ms grid so that timeouts, arrivals and releases coincide), service times 0..30 ms, outcomes return/error/panic/core.ErrTimeout or context.DeadlineExceeded answered by the next handler (what a time-limited handler further down returns); monitors: in-flight counter inside the next handler (maximum must be <= max), exact return instant of timed-out waiters, ConcurrentRequests()==0 at quiescence, and a fresh batch of max requests released at one instant must all be inside simultaneously afterwards (not wedged, no permit lost or leaked). Rate limiter: rate in {1,10,1000}/s x maxPermits {inf,0,1,10} x timeout {0, 50ms, exact boundaries +-1ns} x token sizes (invoke path 1 token, IO path len(request)) x sequential arrival scripts: every window [i,j] of admissions is checked against burst + rate*elapsed + slack, every rejection against a reference bucket charged with admitted requests only, every wait against the timeout; concurrent: same-instant parallel bursts against a full bucket. distinct_nontrivial = distinct (limiter configuration, script) pairs with at least one contended or delayed request Added: callers that cancel their own context (deadline and explicit cancellation) while queued at the concurrent limiter; maxPermits 0.")
 	r.Meta("assumptions", []string{
 		"rate window slack = 2*kmax tokens (pay-later admission: a request is admitted when the previous debt is paid, its own tokens are charged afterwards; cap applied after subtraction)",
 		"a rejection is reported only if even a strict token bucket (admitted requests only) would have had the tokens within the timeout: tokens - available <= timeout*rate",
@@ -104,7 +104,7 @@ func concurrentLimiterCase(c *h.Case, max int, to time.Duration, k int) {
 		reqs[i] = &creq{
 			arrive:  time.Duration(rng.Intn(40)) * time.Millisecond,
 			service: []time.Duration{0, time.Millisecond, 5 * time.Millisecond, 20 * time.Millisecond, 30 * time.Millisecond}[rng.Intn(5)],
-			outcome: "SSSEP"[rng.Intn(5)],
+			outcome: "SSSEPTD"[rng.Intn(7)],
 		}
 		if k%5 == 0 {
 			reqs[i].arrive = time.Duration(rng.Intn(3)) * time.Millisecond // heavy contention
@@ -142,6 +142,11 @@ func concurrentLimiterCase(c *h.Case, max int, to time.Duration, k int) {
 			return nil, errors.New("service error")
 		case 'P':
 			panic("service panic")
+		case 'T':
+			// what a time-limited handler further down (a rate limiter, a time-out plugin) answers
+			return nil, core.ErrTimeout
+		case 'D':
+			return nil, context.DeadlineExceeded
 		}
 		return okResp, nil
 	}
@@ -190,7 +195,7 @@ func concurrentLimiterCase(c *h.Case, max int, to time.Duration, k int) {
 	r.StatMax("max_inflight_observed", atomic.LoadInt64(&maxInflight))
 	contended := false
 	for i, q := range reqs {
-		if q.err == core.ErrTimeout {
+		if q.err == core.ErrTimeout && !(q.entered && q.outcome == 'T') {
 			r.Stat("limiter_timeouts", 1)
 			contended = true
 			if q.entered {
@@ -222,6 +227,10 @@ func concurrentLimiterCase(c *h.Case, max int, to time.Duration, k int) {
 		case 'E':
 			if q.err == nil || q.err.Error() != "service error" {
 				c.Violation("error-not-propagated:"+sig, fmt.Sprintf("request %d: err=%v", i, q.err), rep)
+			}
+		case 'T', 'D':
+			if want := map[byte]error{'T': core.ErrTimeout, 'D': context.DeadlineExceeded}[q.outcome]; q.err != want {
+				c.Violation("error-not-propagated:"+sig, fmt.Sprintf("request %d: the next handler answered %v, the caller got err=%v", i, want, q.err), rep)
 			}
 		}
 	}
